@@ -60,6 +60,14 @@ def proxies():
             m = symx.SNum(z3.IntVal(a)) % symx.SNum(z3.IntVal(b))
             if ctx.concretize(q.e) != a // b or ctx.concretize(m.e) != a % b:
                 bad.append(("int floordiv/mod", a, b))
+        for a in (0, 1, 2, 3, 4, 255, 256, -1, -8, 2**40 - 1, 2**40, 10**18):
+            x = z3.Int(f"bl_{abs(a)}_{int(a < 0)}")
+            ctx.add(x == a)
+            ctx.model = None
+            k = symx.SNum(x).bit_length()
+            got = k if isinstance(k, int) else ctx.concretize(k.e)
+            if got != a.bit_length():
+                bad.append(("bit_length", a, got))
         for x in (2.5, -2.5, 0.999999, -0.000001, 3.0):
             from fractions import Fraction
             t = symx.sym_int(symx.SNum(symx._rat(Fraction(repr(x)))))
